@@ -102,7 +102,7 @@ func hasEvent(evs []string, want string) bool {
 }
 
 func runC16(e *Env) {
-	e.Rule = "ALL 256 controller types (128 subsets of {Index, Create, Store, Show, Edit, Update, Delete} x with/without Uses(); Uses() returns a marker middleware for every action incl. unimplemented ones) x base paths {/, /api/, /v1/admin/; inside a group also the empty string, api/, v1/admin/} x inside/outside a Group (single group, nested groups 2+1 middleware, 3 middleware passed to Resource itself: slices with spare capacity), registered on fresh routers several times (every third plain case mounts the same controller type a second time under /second/ on the same router and checks both mounts) (map iteration inside Resource is random), HandleMethodNotAllowed on, cache on/off. Observed: Router.Routes() as (method, path, name) triples, NamedRoutes(), and the answers to 9 methods x {/res, /res/, /res/create, /res/7, /res/create/edit, /res/7/edit, /res/7/x, /other}: answering action + id, marker middleware seen, 405 + Allow set, 404. Oracle: the documented seven-row table filtered by the subset (+ the C06 resolution order). Resource(base, T{}) and Resource(base, &string) must panic. Non-trivial: every (type, base, group) combination; distinct by it. Every controller instance carries a tag that its actions report (the answering action must belong to the instance given to that Resource call); Uses() maps also contain keys that are no action names (case variants, empty, unknown) whose middleware must never run."
+	e.Rule = "ALL 256 controller types (128 subsets of {Index, Create, Store, Show, Edit, Update, Delete} x with/without Uses(); Uses() returns a marker middleware for every action incl. unimplemented ones) x base paths {/, /api/, /v1/admin/; inside a group also the empty string, api/, v1/admin/} x inside/outside a Group (single group, nested groups 2+1 middleware, 3 middleware passed to Resource itself: slices with spare capacity), registered on fresh routers several times (every third plain case mounts the same controller type a second time under /second/ on the same router and checks both mounts) (map iteration inside Resource is random), HandleMethodNotAllowed on, cache on/off. Observed: Router.Routes() as (method, path, name) triples, NamedRoutes(), and the answers to 9 methods x {/res, /res/, /res/create, /res/7, /res/create/edit, /res/7/edit, /res/7/x, /other}: answering action + id, marker middleware seen, 405 + Allow set, 404. Oracle: the documented seven-row table filtered by the subset (+ the C06 resolution order). Resource(base, T{}) and Resource(base, &string) must panic. Non-trivial: every (type, base, group) combination; distinct by it. Every controller instance carries a tag that its actions report (the answering action must belong to the instance given to that Resource call); Uses() maps also contain keys that are no action names (case variants, empty, unknown) whose middleware must never run. Two fifths of the grouped cases call Use() 2..3 times in the group body before mounting the resource (the group's list then has spare capacity)."
 	e.Assumptions = []string{
 		"non-strict mode (the documented table is the non-strict one); base paths end in '/' as documented",
 	}
@@ -128,6 +128,7 @@ func runC16(e *Env) {
 		}
 		second := !inGroup && (t.Idx/combos+t.Idx)%3 == 0 // the same controller type is mounted a second time under another base
 		cacheOn := t.Idx%3 == 0
+		useInBody := 0 // number of Use() calls in the group body before the resource is mounted
 		t.Describe(func() any {
 			var impl []string
 			for i, a := range c16Actions {
@@ -135,7 +136,7 @@ func runC16(e *Env) {
 					impl = append(impl, a)
 				}
 			}
-			return map[string]any{"controller": ct.Name, "implements": impl, "with_Uses": ct.WithUses, "base": base, "in_group": inGroup, "mounted_again_under_/second/": second, "cache": cacheOn, "middleware_variant(0 none/1 group,1 +3 Resource mw,2 nested groups,3 both)": int(t.Idx/combos+t.Idx) % 4}
+			return map[string]any{"controller": ct.Name, "implements": impl, "with_Uses": ct.WithUses, "base": base, "in_group": inGroup, "mounted_again_under_/second/": second, "cache": cacheOn, "Use_calls_in_group_body_before_Resource": useInBody, "middleware_variant(0 none/1 group,1 +3 Resource mw,2 nested groups,3 both)": int(t.Idx/combos+t.Idx) % 4}
 		})
 		if t.Idx < 2 || t.Idx == 77 {
 			t.wantSample = true
@@ -173,6 +174,20 @@ func runC16(e *Env) {
 		if inGroup {
 			prefix = "/grp"
 			inner := reg
+			if t.Idx%5 < 2 {
+				// the group body calls Use() before it mounts the resource: the group's list grows by
+				// appends (spare capacity) and every action route is derived from that one list
+				plain := reg
+				nUse := 2 + int(t.Idx%2)
+				inner = func() {
+					for i := 0; i < nUse; i++ {
+						router.Use(marker(fmt.Sprintf("u%d", i+1)))
+					}
+					plain()
+				}
+				useInBody = nUse
+				t.Count("resource.group_body_calls_Use_first", 1)
+			}
 			switch variant {
 			case 0, 1:
 				wantGroupEv = append(wantGroupEv, "gmw:group")
@@ -184,6 +199,9 @@ func runC16(e *Env) {
 				reg = func() {
 					router.Group("/grp", func() { router.Group("/in", inner, marker("i1")) }, marker("o1"), marker("o2"))
 				}
+			}
+			for i := 0; i < useInBody; i++ {
+				wantGroupEv = append(wantGroupEv, fmt.Sprintf("gmw:u%d", i+1))
 			}
 		}
 		if variant == 1 || variant == 3 {
